@@ -307,7 +307,8 @@ def VE.isMissing : VE → Bool
 clone (shallow) when the node believes it has a parent and is not believed to be already at this
 very location, otherwise move the very node; then overwrite its beliefs. `pending` is the
 old value of the slot being written by `Dict._set_item_without_permission_check`: it has just
-been detached (parent None) but still occupies the slot, so offering it moves it. For attribute
+been detached (parent None) but still occupies the slot, so offering it moves it (the model
+keeps it in its slot with its old beliefs until the new value is stored and detaches it here). For attribute
 containers of objects the identity test `value.sym_parent is not self` compares the owner object
 with the attribute dict and is always true (`holderObj`). -/
 def relocateRef (cfg : Cfg) (f : Forest) (pending : Option Nat) (par : Option Nat) (holderObj : Bool) (p : List Key) (id : Nat) :
@@ -322,14 +323,24 @@ def relocateRef (cfg : Cfg) (f : Forest) (pending : Option Nat) (par : Option Na
     | none => (f, .leaf .none)
   | some (.leaf a) => (f, .leaf a)
   | some (.node m its) =>
-    if m.parent.isNone || (!holderObj && m.parent == par && m.path == p) then
+    if pending == some id then
+      -- the value being replaced by this very call: the dict has detached it (parent None, path
+      -- root) before it formalizes the new value, so it is moved; it leaves its slot when the
+      -- new value is stored
+      ({ f with pool := f.pool ++ [.node m its] },
+       ((((Tree.node m its).setParent none).setPath []).setPath p).setParent par)
+    else if m.parent.isNone || (!holderObj && m.parent == par && m.path == p) then
       let t := ((Tree.node m its).setPath p).setParent par
       if f.isRoot id then ({ f.removeRoot id with pool := f.pool ++ [.node m its] }, t)
-      else if pending == some id then ({ f with pool := f.pool ++ [.node m its] }, t)     -- the value being replaced: it leaves its slot in this very call
       else ({ f with aliased := true }, t)
     else
       let c := (Tree.node m its).clone cfg false f.nextId par p
       ({ f with nextId := c.2 }, c.1)
+
+/-- store `v` under `slot` of the container with meta `m'`; `v` was built for the path
+`m'.path ++ [pathKey]` (re-pathing it there is the identity — `setPath` returns at once). -/
+def storeKey (slot pathKey : Key) (v : Tree) (m' : Meta) (xs : Items) : Items :=
+  setKey slot (v.setPath (m'.path ++ [pathKey])) xs
 
 def normObjItems (cls : Nat) (its : Items) : Items :=
   (clsFields cls).map (fun k => (k, (getKey its k).getD (.leaf .none)))
